@@ -146,6 +146,9 @@ type VerifIsoChunk struct {
 	SMMappings []byte
 	SMSuffix   []byte
 	Legal      []byte
+	// c.options.SourceMap and c.options.LegalComments (config.SourceMap / config.LegalComments values)
+	SourceMapMode     uint8
+	LegalCommentsMode uint8
 }
 
 // VerifIsolatedHash runs the real generateIsolatedHash on a hand-built chunk and returns the digest it
@@ -154,6 +157,8 @@ type VerifIsoChunk struct {
 // first); with parallel = false the routine runs on the calling goroutine so that a panic can be recovered.
 func VerifIsolatedHash(files []VerifIsoFile, publicPath string, ch VerifIsoChunk, parallel bool) []byte {
 	c := &linkerContext{options: &config.Options{PublicPath: publicPath}}
+	c.options.SourceMap = config.SourceMap(ch.SourceMapMode)
+	c.options.LegalComments = config.LegalComments(ch.LegalCommentsMode)
 	c.graph.Files = make([]graph.LinkerFile, len(files))
 	for i, f := range files {
 		c.graph.Files[i].InputFile.Source.KeyPath.Namespace = f.Namespace
